@@ -923,6 +923,28 @@ fn gen_userops(rng: &mut Rng) -> Vec<UserOperation> {
     v
 }
 
+/// the answer line of `codec userop <hex>`: what the real decoder makes of the bytes
+fn userop_answer(b: &[u8]) -> String {
+    match catch_unwind(AssertUnwindSafe(|| UserOperation::decode(&mut &b[..]))) {
+        Err(_) => "panic".into(),
+        Ok(Err(e)) => format!("err:{}", err_name(&e)),
+        Ok(Ok(op)) => match catch_unwind(AssertUnwindSafe(|| (op.encoded_len(), op.clone().encode()))) {
+            Ok((l, enc)) => format!("ok re={} elen={}", hex(&enc), l),
+            Err(_) => "panic".into(),
+        },
+    }
+}
+
+/// the answer line of `codec report <hex>`
+fn report_answer(b: &[u8]) -> String {
+    use cfdp_core::daemon::Report;
+    match catch_unwind(AssertUnwindSafe(|| Report::decode(&mut &b[..]))) {
+        Err(_) => "panic".into(),
+        Ok(Err(e)) => format!("err:{}", err_name(&e)),
+        Ok(Ok(r)) => format!("ok re={}", hex(&r.encode())),
+    }
+}
+
 /// implementation-level C05/C06 oracle for user operations and status reports
 pub fn userops_oracle(ctx: &mut Ctx, rng: &mut Rng, thorough: bool) -> u64 {
     use cfdp_core::daemon::Report;
@@ -936,6 +958,17 @@ pub fn userops_oracle(ctx: &mut Ctx, rng: &mut Rng, thorough: bool) -> u64 {
             let dec = UserOperation::decode(&mut &enc[..]);
             (enc, len_ok, dec)
         }));
+        if let Ok((enc, _, _)) = &r {
+            rec(ctx.out, &format!("codec userop {}", hex(enc)), &userop_answer(enc));
+            // the same message truncated and with one octet changed
+            if !enc.is_empty() {
+                let k = rng.below(enc.len() as u64) as usize;
+                rec(ctx.out, &format!("codec userop {}", hex(&enc[..k])), &userop_answer(&enc[..k]));
+                let mut m = enc.clone();
+                m[k] ^= *rng.pick(&[0x01u8, 0x10, 0x80, 0xff]);
+                rec(ctx.out, &format!("codec userop {}", hex(&m)), &userop_answer(&m));
+            }
+        }
         match r {
             Ok((enc, len_ok, dec)) => {
                 if !len_ok {
@@ -969,6 +1002,14 @@ pub fn userops_oracle(ctx: &mut Ctx, rng: &mut Rng, thorough: bool) -> u64 {
                         n += 1;
                         let rep = Report { id: TransactionID(gen_id(rng, w1), gen_id(rng, w2)), state: st, status: ts, condition: c };
                         let enc = rep.clone().encode();
+                        rec(ctx.out, &format!("codec report {}", hex(&enc)), &report_answer(&enc));
+                        if !enc.is_empty() {
+                            let k = rng.below(enc.len() as u64) as usize;
+                            let mut m = enc.clone();
+                            m[k] ^= *rng.pick(&[0x01u8, 0x10, 0x80, 0xff]);
+                            rec(ctx.out, &format!("codec report {}", hex(&m)), &report_answer(&m));
+                            rec(ctx.out, &format!("codec report {}", hex(&enc[..k])), &report_answer(&enc[..k]));
+                        }
                         match catch_unwind(AssertUnwindSafe(|| Report::decode(&mut &enc[..]))) {
                             Ok(Ok(d)) if d.id == rep.id && d.state == rep.state && d.status == rep.status && d.condition == rep.condition => {}
                             other => {
@@ -977,6 +1018,59 @@ pub fn userops_oracle(ctx: &mut Ctx, rng: &mut Rng, thorough: bool) -> u64 {
                             }
                         }
                     }
+                }
+            }
+        }
+    }
+    // store-and-forward overlay request / report: their fields are private, so the encodings are built by hand
+    for _ in 0..(if thorough { 400 } else { 60 }) {
+        let lv = |rng: &mut Rng, max: u64| -> Vec<u8> {
+            let k = rng.below(max + 1) as usize;
+            let mut v = vec![k as u8];
+            v.extend(rng.bytes(k));
+            v
+        };
+        let name = |rng: &mut Rng| -> Vec<u8> {
+            let s = gen_name(rng);
+            let mut v = vec![s.as_str().len() as u8];
+            v.extend(s.as_str().as_bytes());
+            v
+        };
+        let idlv = |rng: &mut Rng| -> Vec<u8> {
+            let w = *rng.pick(&[1usize, 2, 4, 8, 8, 3]);
+            let mut v = vec![w as u8];
+            v.extend(rng.bytes(w));
+            v
+        };
+        let mut b = b"cfdp".to_vec();
+        if rng.chance(1, 2) {
+            b.push(MessageType::SFORequest as u8);
+            b.push(rng.below(256) as u8);
+            b.push(rng.below(256) as u8);
+            b.extend(lv(rng, 12));
+            b.extend(idlv(rng));
+            b.extend(idlv(rng));
+            b.extend(name(rng));
+            b.extend(name(rng));
+        } else {
+            b.push(MessageType::SFOReport as u8);
+            b.extend(lv(rng, 12));
+            b.extend(idlv(rng));
+            b.extend(idlv(rng));
+            b.extend(idlv(rng));
+            b.push(rng.below(256) as u8);
+            b.push(rng.below(256) as u8);
+            b.push(rng.below(256) as u8);
+        }
+        n += 1;
+        rec(ctx.out, &format!("codec userop {}", hex(&b)), &userop_answer(&b));
+        if let Ok(Ok(op)) = catch_unwind(AssertUnwindSafe(|| UserOperation::decode(&mut &b[..]))) {
+            let enc = op.clone().encode();
+            match catch_unwind(AssertUnwindSafe(|| UserOperation::decode(&mut &enc[..]))) {
+                Ok(Ok(op2)) if op2 == op && enc.len() == op.encoded_len() as usize => {}
+                other => {
+                    ctx.viol05 += 1;
+                    oracle(ctx.out, "C05", "userop_roundtrip", &format!("{:?} re-decodes as {:?} (or its announced length is wrong) || ops: codec userop {}", op, other.map(|r| r.map_err(|e| err_name(&e))), hex(&b)));
                 }
             }
         }
@@ -995,6 +1089,7 @@ pub fn userops_oracle(ctx: &mut Ctx, rng: &mut Rng, thorough: bool) -> u64 {
                 tail[0] = *rng.pick(&[0u8, 1, 2, 3, 4, 8, 0x11, 0x33, 0x77, 0xff]);
             }
             b.extend(tail);
+            rec(ctx.out, &format!("codec userop {}", hex(&b)), &userop_answer(&b));
             MAX_ALLOC.store(0, Ordering::Relaxed);
             let r = catch_unwind(AssertUnwindSafe(|| UserOperation::decode(&mut &b[..])));
             let max = MAX_ALLOC.load(Ordering::Relaxed);
